@@ -3,6 +3,7 @@
 package client
 
 import (
+	"net"
 	"time"
 
 	"github.com/fatedier/frp/client/visitor"
@@ -126,4 +127,72 @@ func verif_client_worker(ctl *Control) {
 	verif.Ensures(verif.Closed(ctl.doneCh), "end_of_session_announced")
 	verif.Ensures(verif.Called("Control).closeSession") && verif.Called("proxy.Manager).Close") && verif.Called("visitor.Manager).Close"), "session_and_managers_closed")
 	verif.Ensures(verif.CalledBefore("proxy.Manager).Close", "close:H.client.Control.doneCh") && verif.CalledBefore("visitor.Manager).Close", "close:H.client.Control.doneCh"), "managers_closed_before_the_announcement")
+}
+
+// ---------------------------------------------------------------- C16: shared state of the client service
+
+// The running session and the loaded configuration are replaced on reload /
+// re-login while the admin API and the status calls read them.
+//
+//verif:guarded Service ctlMu ctl
+//verif:guarded Service cfgMu proxyCfgs visitorCfgs
+//verif:sweep-type Service props=C16 kinds=lock
+
+// ---------------------------------------------------------------- C16: handlers and the types they are registered for
+
+//verif:contract (*~/client.Control).registerMsgHandlers
+//verif:props C16 C17
+func verif_client_registerMsgHandlers(ctl *Control) {
+	verif.Requires(msg.VerifDispatcherOK(ctl.msgDispatcher), "dispatcher_built")
+	verif.ResetEvents()
+	ctl.registerMsgHandlers()
+	const ev = "Dispatcher).RegisterHandler"
+	verif.Ensures(verif.CallCount(ev) == 4, "four_message_types_handled")
+	_, t0 := verif.NthArg[msg.Message](ev, 0, 1).(*msg.ReqWorkConn)
+	_, t1 := verif.NthArg[msg.Message](ev, 1, 1).(*msg.NewProxyResp)
+	_, t2 := verif.NthArg[msg.Message](ev, 2, 1).(*msg.NatHoleResp)
+	_, t3 := verif.NthArg[msg.Message](ev, 3, 1).(*msg.Pong)
+	verif.Ensures(t0 && verif.HandlerName(verif.NthArg[func(msg.Message)](ev, 0, 2)) == "handleReqWorkConn", "req_work_conn_to_its_handler")
+	verif.Ensures(t1 && verif.HandlerName(verif.NthArg[func(msg.Message)](ev, 1, 2)) == "handleNewProxyResp", "new_proxy_resp_to_its_handler")
+	verif.Ensures(t2 && verif.HandlerName(verif.NthArg[func(msg.Message)](ev, 2, 2)) == "handleNatHoleResp", "nat_hole_resp_to_its_handler")
+	verif.Ensures(t3 && verif.HandlerName(verif.NthArg[func(msg.Message)](ev, 3, 2)) == "handlePong", "pong_to_its_handler")
+}
+
+//verif:contract (*~/client.Control).handleNewProxyResp
+//verif:props C16 C19
+func verif_client_handleNewProxyResp(ctl *Control, m msg.Message) {
+	r, ok := m.(*msg.NewProxyResp)
+	verif.Requires(ok, "dispatcher_delivers_registered_type")
+	verif.Requires(ctl.pm != nil, "constructed_by_NewControl")
+	name, addr, e := r.ProxyName, r.RemoteAddr, r.Error
+	verif.ResetEvents()
+	ctl.handleNewProxyResp(m)
+	verif.Ensures(verif.CalledWith("proxy.Manager).StartProxy", 1, name) && verif.CalledWith("proxy.Manager).StartProxy", 2, addr) && verif.CalledWith("proxy.Manager).StartProxy", 3, e), "reply_forwarded_to_the_named_proxy")
+}
+
+//verif:contract (*~/client.Control).handleNatHoleResp
+//verif:props C16
+func verif_client_handleNatHoleResp(ctl *Control, m msg.Message) {
+	_, ok := m.(*msg.NatHoleResp)
+	verif.Requires(ok, "dispatcher_delivers_registered_type")
+	verif.Requires(ctl.msgTransporter != nil, "constructed_by_NewControl")
+	ctl.handleNatHoleResp(m)
+}
+
+// handleReqWorkConn: a new work connection is announced with this session's
+// run id, signed by the setter; it is handed to the proxy manager under the
+// name the server's StartWorkConn carries, and closed on every failure.
+//
+//verif:contract (*~/client.Control).handleReqWorkConn
+//verif:props C16 C01
+func verif_client_handleReqWorkConn(ctl *Control, m msg.Message) {
+	verif.Requires(ctl.sessionCtx != nil && ctl.pm != nil, "constructed_by_NewControl")
+	verif.ResetEvents()
+	ctl.handleReqWorkConn(m)
+	if verif.Called("proxy.Manager).HandleWorkConn") {
+		verif.Ensures(verif.RetErr("Control).connectServer", 1) == nil && verif.RetErr("Setter).SetNewWorkConn", 0) == nil && verif.RetErr("msg.WriteMsg", 0) == nil && verif.RetErr("msg.ReadMsgInto", 0) == nil, "dispatched_only_after_a_complete_handshake")
+		verif.Ensures(verif.Same(verif.NthArg[any]("proxy.Manager).HandleWorkConn", 0, 2), any(verif.Ret[net.Conn]("Control).connectServer", 0))), "the_new_connection_is_dispatched")
+	} else if verif.Called("Control).connectServer") && verif.RetErr("Control).connectServer", 1) == nil {
+		verif.Ensures(verif.CalledWith("Conn).Close", 0, verif.Ret[net.Conn]("Control).connectServer", 0)), "failed_handshake_closes_the_connection")
+	}
 }
